@@ -15,7 +15,7 @@ fn quiet() -> Duration {
 
 enum Kind {
     Down { name: String, b: usize, w: usize, twice: bool, jam: bool },
-    Up { name: String, b: usize, w: usize, content: Vec<u8>, lossy: bool },
+    Up { name: String, b: usize, w: usize, content: Vec<u8>, lossy: bool, vandal: bool },
     Intruder { what: String },
     /// sends datagrams (well-formed or not) from its own endpoint to the endpoint that serves client `victim`
     Stranger { victim: usize, what: String },
@@ -213,14 +213,22 @@ impl Client {
                 }
             }
             Kind::Mutate { .. } => {}
-            Kind::Up { name, b, w, content, lossy } => {
-                let (b, w, lossy) = (*b, *w, *lossy);
+            Kind::Up { name, b, w, content, lossy, vandal } => {
+                let (b, w, lossy, vandal) = (*b, *w, *lossy, *vandal);
                 let nblocks = content.len() / b + 1;
                 if !self.started {
                     self.started = true;
                     let p = Packet::Wrq { filename: name.clone(), mode: "octet".into(), options: opts(b, w) };
                     self.send(&p, listener);
                 } else if let Some(to) = self.peer {
+                    if vandal {
+                        // `V`: ahead of every window the client's own endpoint sends a datagram that is no TFTP packet (first byte 1, then what
+                        // would be a DATA header for the next expected block, three payload bytes): it is undecodable and must be ignored
+                        let k = self.acked + 1;
+                        let junk = [1u8, 3, ((k >> 8) & 255) as u8, (k & 255) as u8, 0x6a, 0x75, 0x6e];
+                        let _ = self.sock.send_to(&junk, to);
+                        std::thread::sleep(Duration::from_millis(3));
+                    }
                     for k in self.acked..std::cmp::min(self.acked + w, nblocks) {
                         let lo = k * b;
                         let hi = std::cmp::min(lo + b, content.len());
@@ -347,12 +355,17 @@ pub fn multi_line(toks: &[&str]) -> String {
             ["D", name, b, w] => Kind::Down { name: name.to_string(), b: b.parse().unwrap_or(512), w: w.parse().unwrap_or(1), twice: true, jam: false },
             ["u", name, b, w, rest @ ..] => {
                 let c = parse_content(&rest.join(":"))?;
-                Kind::Up { name: name.to_string(), b: b.parse().unwrap_or(512), w: w.parse().unwrap_or(1), content: c, lossy: false }
+                Kind::Up { name: name.to_string(), b: b.parse().unwrap_or(512), w: w.parse().unwrap_or(1), content: c, lossy: false, vandal: false }
             }
             // `U`: an upload whose client "loses" the first acknowledgement of every window and sends the window again
             ["U", name, b, w, rest @ ..] => {
                 let c = parse_content(&rest.join(":"))?;
-                Kind::Up { name: name.to_string(), b: b.parse().unwrap_or(512), w: w.parse().unwrap_or(1), content: c, lossy: true }
+                Kind::Up { name: name.to_string(), b: b.parse().unwrap_or(512), w: w.parse().unwrap_or(1), content: c, lossy: true, vandal: false }
+            }
+            // `V`: an upload whose client sends an undecodable look-alike of the next DATA block ahead of every window
+            ["V", name, b, w, rest @ ..] => {
+                let c = parse_content(&rest.join(":"))?;
+                Kind::Up { name: name.to_string(), b: b.parse().unwrap_or(512), w: w.parse().unwrap_or(1), content: c, lossy: false, vandal: true }
             }
             // `m`: not a client - on its turn the file <name> of the served directory is replaced behind the server's back
             ["m", name, rest @ ..] => {
